@@ -1,4 +1,4 @@
-"""C04 no diagnostic iff sentence (partial): E1, S8, S2, F1."""
+"""C04 no diagnostic iff sentence (partial): E1, S8, S2, F1, F2, F5."""
 from .. import skel
 from . import common
 
@@ -7,7 +7,7 @@ EXHAUSTIVE = False
 EXPLANATION = ("Necessary conditions of 'invalid input is never accepted silently': a token is consumed without error only after it "
                "was tested (E1); error-mode consumption is preceded by a report (S8); trailing input after the start rule is reported "
                "and the input is completed (S2); the choice-mode flag, under which mismatches are answered with a silent None, cannot "
-               "survive an ordered choice (F1). The iff itself (language equality) is not decided.")
+               "survive an ordered choice (F1); inside an attempt that can still be undone nothing is reported (F2: a sentence whose first alternative fails late would draw a diagnostic) and the result of a shared rule is never dropped (F5: a failed attempt would continue as if it had matched, accepting invalid input silently). The iff itself (language equality) is not decided.")
 
 
 def run(ctx, rep):
@@ -15,4 +15,4 @@ def run(ctx, rep):
         lambda i, r, o: skel.s8_report_first(i, r),
         lambda i, r, o: skel.s2_complete(i, r),
     ])
-    common.g_rules(ctx, rep, ["E1", "F1"], floors={"E1": 300, "F1": 300})
+    common.g_rules(ctx, rep, ["E1", "F1", "F2", "F5"], floors={"E1": 300, "F1": 300})
